@@ -18,6 +18,9 @@
      `matInv_step`, for payloads that report existing streams only, `MatOK`.)
    * `detach_stops`          — after a converter is detached from a tag, streams matched only by that
      tag are no longer queued for it.
+  History level: Pk/Props/C16Reach.lean (`cached_current_run` with ghost versions, `output_current_when_idle`,
+  `detach_stops_all_runs` — the literal "detaching stops further runs", false of the code before the repair
+  of finding F57).
   Not expressible: a conversion that is still running inside the job goroutine while an import
   completes (its result would be stored after the invalidation) — the gates park jobs only at
   their completion, so this interleaving is neither modelled nor driven (level note, finding F16b).
